@@ -18,6 +18,7 @@ import (
 	"fmt"
 	"os"
 	"regexp"
+	"runtime"
 	"runtime/debug"
 	"strings"
 	"sync"
@@ -77,7 +78,27 @@ func known(id string) bool {
 	return harness.Known(id)
 }
 
+// memoryGuard ends the worker with a recognisable message when a parse allocates without bound
+// (a recovery loop that stops consuming tokens appends errors for ever), before the shared
+// machine suffers; the parent reports the case as "the process died".
+func memoryGuard() {
+	go func() {
+		var ms runtime.MemStats
+		for {
+			time.Sleep(50 * time.Millisecond)
+			runtime.ReadMemStats(&ms)
+			if ms.HeapAlloc > 700<<20 {
+				fmt.Fprintf(os.Stderr, "fatal error: c04 memory guard: heap grew to %d MB while parsing (limit 700 MB)\n", ms.HeapAlloc>>20)
+				os.Exit(3)
+			}
+		}
+	}()
+}
+
+var guardOnce sync.Once
+
 func serve(raw json.RawMessage) json.RawMessage {
+	guardOnce.Do(memoryGuard)
 	var rq wreq
 	out := wresp{}
 	if err := json.Unmarshal(raw, &rq); err != nil {
@@ -391,25 +412,21 @@ func knownSpanIssue(t *m04.Tree, is m04.Issue) string {
 	if is.Kind != "span-panic" {
 		return ""
 	}
-	for _, rn := range t.Nodes {
-		if rn.Path != is.Path {
-			continue
+	if is.At == nil {
+		return ""
+	}
+	switch n := is.At.Node.(type) {
+	case *ast.SequenceExpression:
+		if len(n.Sequence) == 0 {
+			return "C04-SPAN-EMPTY-SEQUENCE"
 		}
-		switch n := rn.Node.(type) {
-		case *ast.SequenceExpression:
-			if len(n.Sequence) == 0 {
-				return "C04-SPAN-EMPTY-SEQUENCE"
-			}
-		case *ast.CaseStatement:
-			if len(n.Consequent) == 0 {
-				return "C04-SPAN-EMPTY-CASE"
-			}
-		case *ast.Program:
-			if len(n.Body) == 0 {
-				return "C04-SPAN-EMPTY-PROGRAM"
-			}
-		case *ast.ForStatement:
-			// ForStatement.Idx0 is its own field; a panic here is never the known one
+	case *ast.CaseStatement:
+		if len(n.Consequent) == 0 {
+			return "C04-SPAN-EMPTY-CASE"
+		}
+	case *ast.Program:
+		if len(n.Body) == 0 {
+			return "C04-SPAN-EMPTY-PROGRAM"
 		}
 	}
 	return ""
@@ -449,8 +466,13 @@ func faithful(v *verdict, prog *ast.Program, tree *m04.Tree, mut []minijs.Token,
 		switch {
 		case strings.Contains(msg, "does not label an iteration statement"):
 			id = "C04-CONTINUE-NONITER-LABEL"
-		case strings.Contains(msg, "malformed getter") || strings.Contains(msg, "malformed setter"):
+		case strings.Contains(msg, "malformed getter"):
 			id = "C04-ACCESSOR-ARITY"
+		case strings.Contains(msg, "malformed setter"):
+			id = "C04-ACCESSOR-ARITY"
+			if hasEmptySetter(mtree) {
+				id = "C04-SETTER-NO-PARAMETER"
+			}
 		case strings.Contains(msg, "object literal defines a name twice"):
 			id = "C04-OBJLIT-NAME-CLASH"
 		}
@@ -492,6 +514,16 @@ func faithful(v *verdict, prog *ast.Program, tree *m04.Tree, mut []minijs.Token,
 	if al.TrailingComma > 0 {
 		v.class("c:trailing-comma")
 	}
+}
+
+func hasEmptySetter(tree *minijs.Node) bool {
+	found := false
+	minijs.Walk(tree, func(n *minijs.Node) {
+		if n.K == "prop" && n.Op == "set" && len(n.Kids) == 2 && n.Kids[1] != nil && len(n.Kids[1].Params) == 0 {
+			found = true
+		}
+	})
+	return found
 }
 
 func regexThenIdent(mut []minijs.Token) bool {
@@ -582,11 +614,11 @@ var nestDepths = []int{2, 3, 5, 10, 20, 50, 100, 100, 200, 500, 1000, 1000, 2000
 func genBytes(t *rapid.T) bytesCase {
 	c := bytesCase{Mode: rapid.IntRange(0, 1).Draw(t, "mode")}
 	one := func(b []byte) []seg { return []seg{{S: b, Rep: 1}} }
-	switch rapid.IntRange(0, 11).Draw(t, "how") {
+	switch rapid.IntRange(0, 15).Draw(t, "how") {
 	case 0:
 		c.How = "raw"
 		c.Segs = one(rapid.SliceOfN(rapid.Byte(), 0, 96).Draw(t, "raw"))
-	case 1, 2, 3, 4:
+	case 1, 2, 3, 4, 11, 12:
 		c.How = "fragments"
 		n := rapid.IntRange(1, 40).Draw(t, "n")
 		var b []byte
@@ -594,24 +626,27 @@ func genBytes(t *rapid.T) bytesCase {
 			b = append(b, fragments[rapid.IntRange(0, len(fragments)-1).Draw(t, "frag")]...)
 		}
 		c.Segs = one(b)
-	case 5, 6, 7:
+	case 5, 6, 7, 13:
 		c.How = "truncation"
-		prog := minijs.GenProgram(t, minijs.GenCfg{UnicodeIdent: true, MaxDepth: 5})
+		prog := genPrograms(t, 5)
 		_, text := minijs.Render(prog, nil, minijs.LayoutOpts{Trivia: rapid.SliceOfN(rapid.Byte(), 0, 24).Draw(t, "trivia")})
 		lo, hi := 0, len(text)
+		pos := func(label string) int { return uniform(t, label, len(text)+1) }
 		switch rapid.IntRange(0, 3).Draw(t, "cut") {
 		case 0, 1:
-			hi = rapid.IntRange(0, len(text)).Draw(t, "hi")
+			hi = pos("hi")
 		case 2:
-			lo = rapid.IntRange(0, len(text)).Draw(t, "lo")
+			lo = pos("lo")
 		default:
-			lo = rapid.IntRange(0, len(text)).Draw(t, "lo")
-			hi = rapid.IntRange(lo, len(text)).Draw(t, "hi")
+			lo, hi = pos("lo"), pos("hi")
+			if lo > hi {
+				lo, hi = hi, lo
+			}
 		}
 		c.Segs = one([]byte(text[lo:hi]))
-	case 8, 9, 10:
+	case 8, 9, 10, 14:
 		c.How = "byte-edit"
-		prog := minijs.GenProgram(t, minijs.GenCfg{UnicodeIdent: true, MaxDepth: 5})
+		prog := genPrograms(t, 5)
 		_, text := minijs.Render(prog, nil, minijs.LayoutOpts{Trivia: rapid.SliceOfN(rapid.Byte(), 0, 24).Draw(t, "trivia")})
 		b := []byte(text)
 		for k, edits := 0, rapid.IntRange(1, 3).Draw(t, "edits"); k < edits; k++ {
@@ -620,7 +655,7 @@ func genBytes(t *rapid.T) bytesCase {
 			if rapid.IntRange(0, 3).Draw(t, "rnd") == 0 {
 				v = rapid.Byte().Draw(t, "anybyte")
 			}
-			at := rapid.IntRange(0, len(b)).Draw(t, "at")
+			at := uniform(t, "at", len(b)+1)
 			switch op := rapid.IntRange(0, 2).Draw(t, "op"); {
 			case op == 0 && at < len(b):
 				b[at] = v
@@ -633,8 +668,8 @@ func genBytes(t *rapid.T) bytesCase {
 		c.Segs = one(b)
 	default:
 		c.How = "nesting"
-		open := nestOpen[rapid.IntRange(0, len(nestOpen)-1).Draw(t, "open")]
-		d := nestDepths[rapid.IntRange(0, len(nestDepths)-1).Draw(t, "depth")]
+		open := nestOpen[uniform(t, "open", len(nestOpen))]
+		d := nestDepths[uniform(t, "depth", len(nestDepths))]
 		c.Segs = []seg{{S: []byte(open), Rep: d}, {S: []byte(nestMid[rapid.IntRange(0, len(nestMid)-1).Draw(t, "mid")]), Rep: 1}}
 		switch rapid.IntRange(0, 3).Draw(t, "closing") {
 		case 0:
@@ -683,8 +718,8 @@ func checkBytesLocal(c bytesCase) harness.Outcome {
 
 var bytesFacet = harness.Register(&harness.Facet[bytesCase]{
 	Name: "bytes",
-	Rule: "rapid: one of raw bytes (0-96) | 1-40 fragments of a JS alphabet (keywords, every punctuator, literal pieces, comment openers, escapes, every line terminator and ES5 white space, NUL, invalid / truncated UTF-8, encoded surrogates, sourceMappingURL trailers) | a rendered valid program (random trivia) cut to a random prefix / suffix / infix (also inside a multi-byte character) | the same with 1-3 byte replacements / deletions / insertions | an opener repeated 2..10^4 times (at most 16 KB per repeated piece) + middle + closer repeated d / d-1 / d+1 / 0 times (42 openers: brackets, unary and binary operators, every statement head, function literals, accessors, comments, strings); parser mode 0 or StoreComments; checked: no panic, the process survives (worker subprocess, 20 s watchdog), error => non-empty ErrorList with non-empty messages and positions inside the text (1-based line, 1-based BYTE column), accepted => spans and walker as in facet trees; non-trivial = at least 4 non-blank bytes; distinct by JSON of the case",
-	Quick: 6000, Thorough: 40000,
+	Rule: "rapid: one of raw bytes (0-96) | 1-40 fragments of a JS alphabet (keywords, every punctuator, literal pieces, comment openers, escapes, every line terminator and ES5 white space, NUL, invalid / truncated UTF-8, encoded surrogates, sourceMappingURL trailers) | a rendered valid program (random trivia) cut to a random prefix / suffix / infix (also inside a multi-byte character) | the same with 1-3 byte replacements / deletions / insertions | an opener repeated 2..10^4 times (at most 16 KB per repeated piece) + middle + closer repeated d / d-1 / d+1 / 0 times (42 openers: brackets, unary and binary operators, every statement head, function literals, accessors, comments, strings); parser mode 0 or StoreComments; checked: no panic, the process survives (worker subprocess, 20 s watchdog), error => non-empty ErrorList with non-empty messages and positions inside the text (1-based line, 1-based column counted in characters, the unit file.Position documents), accepted => spans and walker as in facet trees; non-trivial = at least 4 non-blank bytes; distinct by JSON of the case",
+	Quick: 5000, Thorough: 30000,
 	Gen:   genBytes,
 	Check: remote("bytes", checkBytesLocal),
 })
@@ -701,17 +736,40 @@ type mutantCase struct {
 	Mode   int          `json:"mode"`
 }
 
+// uniform draws an index in [0,n) that is close to uniformly distributed (rapid's integer
+// generators prefer small values, which would pin positions to the start of a program) and
+// still shrinks to 0.
+func uniform(t *rapid.T, label string, n int) int {
+	a := rapid.IntRange(0, 1<<20).Draw(t, label)
+	b := rapid.IntRange(0, 1<<20).Draw(t, label+"'")
+	c := rapid.IntRange(0, 1<<20).Draw(t, label+"''")
+	if n <= 0 {
+		return 0
+	}
+	return (m04.Scramble(a) ^ m04.Scramble(b)*31 ^ m04.Scramble(c)*131) % n
+}
+
+// genPrograms concatenates one to three generated programs (the generator alone leans to very
+// short programs).
+func genPrograms(t *rapid.T, depth int) *minijs.Node {
+	p := minijs.GenProgram(t, minijs.GenCfg{UnicodeIdent: true, MaxDepth: depth})
+	for i, n := 0, rapid.IntRange(0, 2).Draw(t, "more"); i < n; i++ {
+		p.Kids = append(p.Kids, minijs.GenProgram(t, minijs.GenCfg{UnicodeIdent: true, MaxDepth: depth}).Kids...)
+	}
+	return p
+}
+
 func genMutant(t *rapid.T) mutantCase {
-	c := mutantCase{Prog: minijs.GenProgram(t, minijs.GenCfg{UnicodeIdent: true, MaxDepth: 5})}
+	c := mutantCase{Prog: genPrograms(t, 5)}
 	if rapid.IntRange(0, 9).Draw(t, "deslash") < 6 {
 		c.Prog = m04.Deslash(c.Prog)
 	}
 	c.Decor = rapid.SliceOfN(rapid.Byte(), 0, 12).Draw(t, "decor")
-	ops := []string{"delete", "delete", "insert", "insert", "insert", "duplicate", "duplicate", "swap", "swap", "swapfar", "none"}
-	c.Mut.Op = ops[rapid.IntRange(0, len(ops)-1).Draw(t, "op")]
-	c.Mut.I = rapid.IntRange(0, 4000).Draw(t, "i")
-	c.Mut.J = rapid.IntRange(0, 4000).Draw(t, "j")
-	c.Mut.Ins = rapid.IntRange(0, len(m04.InsertPool)-1).Draw(t, "ins")
+	ops := []string{"none", "delete", "insert", "duplicate", "swap", "swapfar", "delete", "insert", "insert", "duplicate", "swap", "delete", "swapfar", "insert", "swap", "duplicate"}
+	c.Mut.Op = ops[uniform(t, "op", len(ops))]
+	c.Mut.I = uniform(t, "i", 1<<16)
+	c.Mut.J = uniform(t, "j", 1<<16)
+	c.Mut.Ins = uniform(t, "ins", 1<<16)
 	c.Trivia = rapid.SliceOfN(rapid.Byte(), 0, 24).Draw(t, "trivia")
 	c.Mode = rapid.IntRange(0, 1).Draw(t, "mode")
 	return c
@@ -751,7 +809,9 @@ func checkMutantLocal(c mutantCase) harness.Outcome {
 		return harness.Outcome{Discard: "empty case"}
 	}
 	base := minijs.Tokens(c.Prog, c.Decor)
-	mut, what := m04.Mutate(base, c.Mut)
+	mm := c.Mut
+	mm.I, mm.J, mm.Ins = m04.Scramble(mm.I), m04.Scramble(mm.J), m04.Scramble(mm.Ins)
+	mut, what := m04.Mutate(base, mm)
 	v := checkOneMutant(base, mut, what, c.Trivia, modeOf(c.Mode))
 	op := c.Mut.Op
 	if m04.SameTokens(base, mut) {
@@ -768,7 +828,7 @@ func checkMutantLocal(c mutantCase) harness.Outcome {
 var mutantFacet = harness.Register(&harness.Facet[mutantCase]{
 	Name: "token-mutants",
 	Rule: "rapid: minijs.GenProgram (valid ES5, depth<=5; 60% with '/' '/=' and regexp literals replaced so that tokenisation cannot depend on the parse) rendered to tokens with random redundant parentheses / trailing commas, then ONE edit of the token list: delete | insert (98-token vocabulary: every punctuator, keyword, reserved word, literal kind) | duplicate | swap adjacent | swap two arbitrary | none; canonical layout (separators only where the lexical grammar needs them, no line terminator) gets (a) totality, and if accepted (c) tree -> tokens equals the mutant's tokens modulo redundant parentheses, ASI before '}' / end / after do-while, trailing commas of literals, plus balanced brackets, no Bad nodes, minijs.Validate (break/continue/return context, labels, targets, try, accessors, reserved words), regexp flags, and (d) spans (e) walker; a second layout with random trivia and parser mode 0/StoreComments gets (a),(d),(e); non-trivial = the edit changed the token list and the mutant has >= 5 tokens; distinct by JSON of the case",
-	Quick: 6000, Thorough: 90000,
+	Quick: 8000, Thorough: 90000,
 	Gen:   genMutant,
 	Check: remote("token-mutants", checkMutantLocal),
 })
@@ -857,10 +917,10 @@ func pctClass(a, n int) string {
 var sweepFacet = harness.Register(&harness.Facet[sweepCase]{
 	Name: "token-sweep",
 	Rule: "rapid: a valid program (depth<=4, '/'-free, <=160 tokens) with random decoration; then EVERY single-token deletion, duplication and adjacent swap, and 4 insertions (salted choice from the 98-token vocabulary) at every position, each analysed like a token-mutants case in canonical layout (about 7 mutants per token); the case fails with the first failing mutant; non-trivial = the program has >= 5 tokens; distinct by JSON of the case",
-	Quick: 140, Thorough: 2500,
+	Quick: 200, Thorough: 2500,
 	Gen: func(t *rapid.T) sweepCase {
 		return sweepCase{
-			Prog:  m04.Deslash(minijs.GenProgram(t, minijs.GenCfg{UnicodeIdent: true, MaxDepth: 4})),
+			Prog:  m04.Deslash(genPrograms(t, 4)),
 			Decor: rapid.SliceOfN(rapid.Byte(), 0, 8).Draw(t, "decor"),
 			Salt:  rapid.IntRange(0, 97).Draw(t, "salt"),
 		}
@@ -984,13 +1044,13 @@ func nodeKinds(p *minijs.Node) []string {
 var treeFacet = harness.Register(&harness.Facet[treeCase]{
 	Name: "trees",
 	Rule: "rapid: minijs.GenProgram (full ES5 grammar, depth<=6, unicode identifiers) or, in 1 case of 8, a small template program built around an absent optional child (for(;;), empty case / default, bare break / continue / return, anonymous function, try without catch / finally, empty program, empty block, new without arguments); three layouts (minimal, redundant parentheses, random trivia with ASI); parser mode 0 / StoreComments; every node found by reflection over the ast structs must answer Idx0/Idx1 without panic, with base <= Idx0 <= Idx1 <= base+len, within its parent's span; ast.Walk must enter every node exactly once under its parent, exit in nesting order and never hand over a nil or typed-nil node; non-trivial = the tree has >= 10 nodes and >= 1 absent optional child; distinct by JSON of the case",
-	Quick: 2500, Thorough: 40000,
+	Quick: 4000, Thorough: 40000,
 	Gen: func(t *rapid.T) treeCase {
 		c := treeCase{}
 		if rapid.IntRange(0, 7).Draw(t, "template") == 0 {
 			c.Prog = genTemplate(t)
 		} else {
-			c.Prog = minijs.GenProgram(t, minijs.GenCfg{UnicodeIdent: true})
+			c.Prog = genPrograms(t, 6)
 		}
 		c.Decor = rapid.SliceOfN(rapid.Byte(), 0, 16).Draw(t, "decor")
 		c.Trivia = rapid.SliceOfN(rapid.Byte(), 1, 32).Draw(t, "trivia")
